@@ -514,6 +514,34 @@ def rule_hard_decode(ctx, R="C04/hard-decode"):
     ctx.floor(R, "functions on the hard path of dump()", len(hard), 100)
 
 
+def rule_every_tid_listed(ctx, R="C04/every-tid-listed"):
+    """enumerate_threads lists every task it could parse a tid for, whether or not its NAME could be read: from the comm read to the
+    next iteration every path passes the push of Thread { tid, name } (a failed name read yields name: None, not a missing thread)"""
+    b = ctx.body(R, PD + "::enumerate_threads")
+    if b is None:
+        return
+    o = Origin(b)
+    pushes = []
+    for bi, t in b.calls(lambda c: c.short == "std::vec::Vec::push"):
+        a = o.call_args(bi)
+        if strip(a[0]) == ("field", ("param", 1), "threads") or any(x == ("field", ("param", 1), "threads") for x in walk(a[0])):
+            pushes.append(bi)
+    reads = [bi for bi, t in b.calls(lambda c: (c.short or "").endswith("fs::read_to_string"))]
+    ctx.floor(R, "threads.push(Thread{..})", len(pushes), 1)
+    ctx.floor(R, "comm read", len(reads), 1)
+    loops = b.loops()
+    for rd in reads:
+        inner = [h for h, body in loops.items() if rd in body]
+        if not inner:
+            ctx.unproven(R, "loop", b.where(rd), "the thread-name read is not inside the task loop")
+            continue
+        h = max(inner, key=lambda x: len(loops[x]))
+        w = must_pass(b, rd, {h}, set(pushes))
+        ctx.check(w is None, R, "listed-after-name-read", b.where(rd), "whatever the name read returns, the thread is pushed to the list before the next task is looked at",
+                  "after the thread-name read an iteration can end without listing the thread: a thread whose name cannot be read disappears from the dump (no registers, no stack)",
+                  detail={"path": w})
+
+
 def run(ctx):
     rule_reg_map(ctx)
     rule_regs_source(ctx)
@@ -523,3 +551,4 @@ def run(ctx):
     rule_thread_list_mutators(ctx)
     rule_lane_copy(ctx)
     rule_hard_decode(ctx)
+    rule_every_tid_listed(ctx)
